@@ -43,6 +43,7 @@ type certSpec struct {
 	notAfter  time.Time
 	client    bool
 	server    bool
+	dns       []string // subject alternative names
 }
 
 func makeCert(spec certSpec, serial int64, parent *x509.Certificate, parentKey *ecdsa.PrivateKey) (*x509.Certificate, *ecdsa.PrivateKey, []byte, error) {
@@ -68,6 +69,9 @@ func makeCert(spec certSpec, serial int64, parent *x509.Certificate, parentKey *
 	if spec.server {
 		tmpl.ExtKeyUsage = append(tmpl.ExtKeyUsage, x509.ExtKeyUsageServerAuth)
 		tmpl.DNSNames = []string{"localhost"}
+	}
+	if len(spec.dns) > 0 {
+		tmpl.DNSNames = append(tmpl.DNSNames, spec.dns...)
 	}
 	if parent == nil {
 		parent, parentKey = tmpl, key
@@ -141,6 +145,11 @@ func getKit() (*tlsKit, error) {
 		_, key, der, _ = makeCert(valid("other", false, true, false), 11, ca, caKey)
 		_, _, forgedDER, _ := makeCert(valid("localhost", false, true, false), 12, nil, nil)
 		k.Clients["wrong-name+forged-extra"] = []tls.Certificate{tlsCert(key, der, forgedDER)}
+		// right CA, wrong common name, the configured name only among the subject alternative names
+		sanSpec := valid("other", false, true, false)
+		sanSpec.dns = []string{"localhost", "*.localhost"}
+		_, key, der, _ = makeCert(sanSpec, 13, ca, caKey)
+		k.Clients["wrong-name+san"] = []tls.Certificate{tlsCert(key, der)}
 		k.Clients["none"] = nil
 
 		work := os.Getenv("VERIF_WORK")
